@@ -78,6 +78,13 @@ def theorem_domain(rep, model, modules):
                     rep.bump('theorem_domain_functions_outside')
                 else:
                     raise RuntimeError('printdecls: ' + a[:200])
+            elif d[0] == 'include':
+                a = model.ask('printdecls', [d])
+                if a.startswith('ok '):
+                    out.append(d)
+                    rep.bump('theorem_domain_includes_inside')
+                else:
+                    rep.bump('theorem_domain_includes_outside')
             elif d[0] == 'fwd':
                 a = model.ask('printdecls', [d])
                 if a.startswith('ok '):
@@ -194,7 +201,9 @@ def run(rep, tier, seed, replay=None, proof_ok=True):
                 used = set()
                 fl = [G.a_decl(g.function(used)) if r.random() < 0.65 else
                       ['var', G.a_ty(g.any_type(1 + k % 8)), 'v%d_%d' % (k, j), []] if r.random() < 0.6 else
-                      ['fwd', r.random() < 0.4, ['tn', [], 'F%d_%d' % (k, j), []], []] for j in range(1 + r.randrange(12))]
+                      ['fwd', r.random() < 0.4, ['tn', [], 'F%d_%d' % (k, j), []], []] if r.random() < 0.7 else
+                      ['include', r.choice(['gtsam/geometry/Pose3.h', 'vector', 'a b.h', 'x/y/z.hpp', 'v%d.h' % j])]
+                      for j in range(1 + r.randrange(12))]
                 # wrap runs of them into namespaces nested up to 12 deep
                 for lvl in range(k % 13):
                     cut = r.randrange(len(fl) + 1)
